@@ -620,8 +620,10 @@ class Engine:
                     out[row] = ("M", inner)
         return out
 
-    def _check_unmanaged(self, world, view, tree, removed_paths, path=()):
+    def _check_unmanaged(self, world, view, tree, removed_paths, path=(), rules=None):
         """every unmanaged line of `view` is still in `tree`, unless an owned ancestor block was removed by a command"""
+        rb = world.rb
+        rules = rb.rules if rules is None else rules
         for row, (kind, body) in view.items():
             p = path + (row,)
             if kind == "U":
@@ -633,9 +635,15 @@ class Engine:
                 if p in removed_paths:
                     continue              # an owned, deletable block was removed by a command (and maybe re-created):
                                           # judged at the removal event, its former unmanaged content is gone legitimately
-                if row not in tree:
+                cur = row
+                m = W.match_direct(rules, rb.globals, row, rb.rev)
+                if row not in tree and m is not None:
+                    # an owned block whose header was given again with another value is still the same block
+                    cur = W.find_line(tree, rules, rb.globals, m[0], m[1], rb.rev)
+                if cur is None or cur not in tree:
                     return ("unmanaged-line-touched", p, "owning block vanished without a removal command")
-                res = self._check_unmanaged(world, body, tree[row], removed_paths, p)
+                sub_rules = W.kids(rules, row, m[0], rb.rev) if m is not None else []
+                res = self._check_unmanaged(world, body, tree[cur], removed_paths, p, sub_rules)
                 if res:
                     return res
         return None
